@@ -39,7 +39,7 @@ def log(*a):
 def _watchdog(pgid, stop, killed):
     """kills solver processes of our process group that exceed the per-process RSS limit
     (RLIMIT_AS cannot be used: rustc reserves more address space than that)"""
-    lim_kb = MEM_LIMIT_GB * (1 << 20)
+    lim_kb = (MEM_LIMIT_GB + 4) * (1 << 20)
     total_kb = int(os.environ.get("VERIF_TOTAL_MEM_GB", "44")) * (1 << 20)
     while not stop.wait(2.0):
         procs = []
@@ -73,10 +73,39 @@ def _watchdog(pgid, stop, killed):
                 pass
 
 
+_WRAP_DIR = None
+
+
+def cbmc_wrapper_dir():
+    """a directory holding a `cbmc` wrapper that runs the real cbmc under an address-space limit, so
+    that a query that outgrows its share of memory ends with CBMC's own out-of-memory exit (which
+    kani-driver reports for that harness alone) instead of being killed (which makes kani-driver
+    panic and lose the whole batch)"""
+    global _WRAP_DIR
+    if _WRAP_DIR and os.path.isdir(_WRAP_DIR):
+        return _WRAP_DIR
+    real = shutil.which("cbmc")
+    if not real:
+        return None
+    d = tempfile.mkdtemp(prefix="nucleo-verif-bin.", dir=os.environ.get("VERIF_SCRATCH") or os.environ.get("TMPDIR") or "/var/tmp")
+    w = os.path.join(d, "cbmc")
+    with open(w, "w") as f:
+        f.write("#!/bin/sh\nulimit -v %d 2>/dev/null\nexec %s \"$@\"\n" % (MEM_LIMIT_GB * 1024 * 1024, real))
+    os.chmod(w, 0o755)
+    _WRAP_DIR = d
+    import atexit
+    atexit.register(lambda: shutil.rmtree(d, ignore_errors=True))
+    return d
+
+
 def sh(cmd, cwd=None, timeout=None, env=None, limit_mem=True):
     import threading
     e = dict(os.environ)
     e.update({"CARGO_NET_OFFLINE": "true", "CARGO_TERM_COLOR": "never"})
+    if limit_mem:
+        wd = cbmc_wrapper_dir()
+        if wd:
+            e["PATH"] = wd + os.pathsep + e.get("PATH", "")
     if env:
         e.update(env)
     t0 = time.time()
@@ -209,7 +238,7 @@ def full_name(cat, u):
     return (parent + "::" if parent else "") + "verif_%s::%s" % (u["module"], u["harness"])
 
 
-def run_kani(cat, dst, scratch, pkg, units, timeout, jobs, feats=""):
+def run_kani(cat, dst, scratch, pkg, units, timeout, jobs, feats="", cargs=""):
     out_json = os.path.join(scratch, "kani-%s-%d.json" % (pkg, int(time.time() * 1000) % 100000))
     cmd = ["cargo", "kani", "-p", pkg] + KANI_FLAGS + ["-j", str(jobs), "--output-format", "terse",
            "--harness-timeout", str(timeout), "--export-json", out_json, "--exact"]
@@ -217,6 +246,8 @@ def run_kani(cat, dst, scratch, pkg, units, timeout, jobs, feats=""):
         cmd += feats.split()
     for u in units:
         cmd += ["--harness", full_name(cat, u)]
+    if cargs:
+        cmd += ["--cbmc-args"] + cargs.split()  # must be the last flag
     rc, out, wall = sh(cmd, cwd=dst, timeout=timeout * max(1, (len(units) + jobs - 1) // jobs) + 900)
     res = {}
     data = None
@@ -310,6 +341,8 @@ def concrete_playback(cat, dst, scratch, pkg, units, timeout):
                "--output-format", "terse", "--harness-timeout", str(timeout), "--exact", "--harness", full_name(cat, u)]
         if u.get("features"):
             cmd += u["features"].split()
+        if u.get("cbmc_args"):
+            cmd += ["--cbmc-args"] + u["cbmc_args"].split()
         rc, out, wall = sh(cmd, cwd=dst, timeout=timeout + 900)
         tests = [t for t in re.findall(r"```\n(.*?)```", out, re.S) if "concrete_playback_run" in t]
         return u["name"], tests, out
@@ -552,9 +585,9 @@ def check(prop, tier, only=None, keep=False):
                 timeout = min(timeout, 600)
             if os.environ.get("VERIF_HARNESS_TIMEOUT"):
                 timeout = int(os.environ["VERIF_HARNESS_TIMEOUT"])
-            groups = sorted({(cat.MODULES[u["module"]]["pkg"], u.get("features", "")) for u in kani_units})
-            for pkg, feats in groups:
-                pu = [u for u in kani_units if cat.MODULES[u["module"]]["pkg"] == pkg and u.get("features", "") == feats]
+            groups = sorted({(cat.MODULES[u["module"]]["pkg"], u.get("features", ""), u.get("cbmc_args", "")) for u in kani_units})
+            for pkg, feats, cargs in groups:
+                pu = [u for u in kani_units if cat.MODULES[u["module"]]["pkg"] == pkg and u.get("features", "") == feats and u.get("cbmc_args", "") == cargs]
                 # seed only permutes scheduling order
                 if seed:
                     pu = pu[seed % len(pu):] + pu[:seed % len(pu)]
@@ -567,7 +600,7 @@ def check(prop, tier, only=None, keep=False):
                 for bi, batch in enumerate(batches):
                     log("[check]   batch %d/%d: %d obligation(s)" % (bi + 1, len(batches), len(batch)))
                     try:
-                        res, out, wall, tl = run_kani(cat, dst, scratch, pkg, batch, timeout, min(jobs, len(batch)), feats)
+                        res, out, wall, tl = run_kani(cat, dst, scratch, pkg, batch, timeout, min(jobs, len(batch)), feats, cargs)
                     except Undecided as e:
                         if "compile-error" in str(e):
                             raise
